@@ -95,6 +95,12 @@ func (y *Module) Imports() map[string]*Import {
 }
 
 func (y *Module) Namespace() string {
+	if y.namespace == "" && y.belongsTo != nil {
+		// what a submodule defines is in the name space of the module it belongs to
+		if main, isModule := y.parent.(*Module); isModule {
+			return main.Namespace()
+		}
+	}
 	return y.namespace
 }
 
